@@ -32,9 +32,10 @@ def run(tier):
                 J("types_sub8_pairs", 400, 4, "one path = one (ordered rewriter pair, union member subset, n class)"),
                 J("types_mix9", 300, 4, "one path = one (rewriter, member subset of the near-miss alphabet, member order, n class)"),
                 J("types_nest8", 200, 4, "one path = one (rewriter, member subset of the nested-union alphabet, member order, n class)"),
+                J("types_td7", 200, 4, "one path = one (rewriter, member subset of the TypedDict alphabet, position, member order, n class)"),
                 J("types_nest4_pairs", 300, 5, "one path = one (ordered rewriter pair, member subset of the nested-union alphabet, member order, n class)")]
     else:
         jobs = [J("types_sub11", 200, 4), J("inferred_tiny", 100, 3), J("types_sub8_pairs", 150, 4),
                 J("types_sub14", 400, 5), J("types_sub17", 400, 6), J("types_sub10_pairs", 400, 5),
-                J("inferred_small", 400, 3), J("types_mix9", 100, 4), J("types_mix13", 400, 5), J("types_nest8", 100, 4), J("types_nest8_pairs", 300, 5), J("types_quick", 300, 3), J("types_deep", 300, 3), J("types_union", 300, 3)]
+                J("inferred_small", 400, 3), J("types_mix9", 100, 4), J("types_mix13", 400, 5), J("types_nest8", 100, 4), J("types_td7", 100, 4), J("types_nest8_pairs", 300, 5), J("types_quick", 300, 3), J("types_deep", 300, 3), J("types_union", 300, 3)]
     return run_check(PID, tier, jobs, H.FUNCTIONS, ASSUMPTIONS)
